@@ -74,6 +74,8 @@ def run_tree(rec, tier, seed, ti, spec):
             rec.seen("base-rejections", repr(t.error)[:120])
             return
         rec.count("trees-staged")
+        if t.generator_reused:
+            rec.count("trees-generated-by-an-instance-that-read-an-earlier-revision")
         it, br = t.interp, t.bridge
         classes = spec.classes()
         fam = it.types["PacketFamily"][0]
